@@ -32,21 +32,21 @@ a prefix of the new frame; on success it is the old bytes plus the whole frame. 
 theorem insert_bucket_wp (key : Bytes) (o : WriteOpts) (b0 : Bytes) {fs : FS}
     (hb : BucketIs fs (bucketPath cfg cache key) b0) :
     wpD env (Growing cfg cache key o b0)
-      (fun r fs' => ∀ s, r = Except.ok s → ∃ tm,
+      (fun r fs' => ∀ s, r = Except.ok s → ∃ tm, (∀ t, o.time = some t → tm = t) ∧
         fs'.get (bucketPath cfg cache key) = some (.file (b0 ++ (codec cfg).frame (mkRec key o tm))))
       (insert cfg cache key o) fs := by
   have G0 : ∀ fsx, BucketIs fsx (bucketPath cfg cache key) b0 → Growing cfg cache key o b0 fsx :=
     fun fsx h => ⟨0, 0, by simpa using h⟩
   -- the tail: open for append, write the frame
-  have tail : ∀ fsx tm, BucketIs fsx (bucketPath cfg cache key) b0 →
+  have tail : ∀ fsx tm, (∀ t, o.time = some t → tm = t) → BucketIs fsx (bucketPath cfg cache key) b0 →
       wpD env (Growing cfg cache key o b0)
-        (fun r fs' => ∀ s, r = Except.ok s → ∃ tm,
+        (fun r fs' => ∀ s, r = Except.ok s → ∃ tm, (∀ t, o.time = some t → tm = t) ∧
           fs'.get (bucketPath cfg cache key) = some (.file (b0 ++ (codec cfg).frame (mkRec key o tm))))
         (Prog.bind (appendRec cfg (bucketPath cfg cache key) (mkRec key o tm)) (fun a =>
           match a with
           | Except.error e => .done (Except.error e)
           | Except.ok () => .done (Except.ok (o.sri.getD defaultSri)))) fsx := by
-    intro fsx tm hbx
+    intro fsx tm htm hbx
     unfold appendRec
     simp only [bind_eq, pure_eq, call, bind_sys, bind_done]
     refine wpD_call (G0 _ hbx) ?_ ?_
@@ -84,7 +84,7 @@ theorem insert_bucket_wp (key : Bytes) (o : WriteOpts) (b0 : Bytes) {fs : FS}
           simp only [exec, hf1, bind_done]
           refine ⟨⟨tm, ((codec cfg).frame (mkRec key o tm)).length, Or.inl ?_⟩, ?_⟩
           · simp
-          · intro s _; exact ⟨tm, by simp⟩
+          · intro s _; exact ⟨tm, htm, by simp⟩
   unfold insert getTime
   simp only [bind_eq, pure_eq, call, bind_sys, bind_done]
   have hnt : ¬ (Call.mkdirP (FS.parent (bucketPath cfg cache key))).touches fs (bucketPath cfg cache key) :=
@@ -96,15 +96,17 @@ theorem insert_bucket_wp (key : Bytes) (o : WriteOpts) (b0 : Bytes) {fs : FS}
   split
   · exact ⟨G0 _ hb1, fun s h => by cases h⟩
   · split
-    · simp only [bind_done]
-      exact tail fs1 _ hb1
+    · rename_i t0 ht0
+      simp only [bind_done]
+      exact tail fs1 _ (fun t ht => by rw [ht0] at ht; cases ht; rfl) hb1
     · simp only [bind_sys]
       refine wpD_call (G0 _ hb1) (fun t => by simpa [execTorn] using G0 _ hb1) ?_
       intro fs2 r2 hs2
       have hb2 : BucketIs fs2 (bucketPath cfg cache key) b0 :=
         hb1.frame (step_frame env fs1 fs2 _ r2 hs2 _ (by simp [Call.touches]))
+      rename_i hnone
       split
-      · simp only [bind_done]; exact tail fs2 _ hb2
-      · simp only [bind_done]; exact tail fs2 _ hb2
+      · simp only [bind_done]; exact tail fs2 _ (fun t ht => by rw [hnone] at ht; cases ht) hb2
+      · simp only [bind_done]; exact tail fs2 _ (fun t ht => by rw [hnone] at ht; cases ht) hb2
 
 end Cacache
